@@ -155,6 +155,26 @@ ShiftHoleProg(k, mask, s) ==
           L(<<>>, "M1", Cs(args))>>]
 Masks(n) == UNION {[1..e -> BOOLEAN] : e \in 1..n}
 
+\* SHIFT issued from INSIDE a repetition nested in the macro body (once per iteration): the lines of the repetition
+\* were substituted when it was collected, so formals / ARGCOUNT / ALLARGS inside it show the binding before the
+\* loop, while the macro's own lines AFTER the loop must see the list as the SHIFTs left it.  k formals, a arguments,
+\* n iterations.
+ShiftLoopProg(kind, k, a, n) ==
+  LET inside == [i \in 1..k |-> DW(<<"0", BS, P(i), BS, "+", "0">>)] \o <<L(<<>>, "SHIFT", <<>>), DB(<<"ARGCOUNT">>), L(<<>>, "M2", <<"ALLARGS">>)>>
+      loop == CASE kind = "REPT"  -> <<L(<<>>, "REPT", N(n))>> \o inside \o <<ENDM>>
+                [] kind = "IRP"   -> <<L(<<>>, "IRP", Cs(<<<<"X9">>>> \o [i \in 1..Max(n, 1) |-> N(20 + i)]))>> \o inside \o <<ENDM>>
+                [] kind = "IRPN"  -> <<L(<<>>, "IRPN", Cs(<<N(2), <<"X9">>, <<"Y9">>>> \o [i \in 1..(2 * Max(n, 1)) |-> N(20 + i)]))>> \o inside \o <<ENDM>>
+                [] kind = "IRPC"  -> <<L(<<>>, "IRPC", Cs(<<<<"X9">>, <<QUOTE>> \o [i \in 1..n |-> ToString(i)] \o <<QUOTE>>>>))>> \o inside \o <<ENDM>>
+                [] OTHER          -> <<L(<<"C9">>, "SET", N(n)), L(<<>>, "WHILE", <<"C9">>)>> \o inside \o <<L(<<"C9">>, "SET", <<"C9", "-", "1">>), ENDM>>
+      iters == IF kind \in {"IRP", "IRPN"} THEN Max(n, 1) ELSE n
+      live == Min(k, Max(a - iters, 0))
+  IN [f \in {"a.asm"} |->
+        <<L(<<"M2">>, "MACRO", <<>>), DB(<<"ARGCOUNT">>), L(<<>>, "IRP", <<"Q", ",", "0", ",", "ALLARGS">>), DW(<<"0", BS, "Q", BS, "+", "0">>), ENDM, ENDM,
+          L(<<"M1">>, "MACRO", Cs(Params(k)))>> \o loop
+        \o [i \in 1..live |-> DW(<<"0", BS, P(i), BS, "+", "0">>)] \o <<DB(<<"ARGCOUNT">>), L(<<>>, "M2", <<"ALLARGS">>), ENDM,
+          L(<<>>, "M1", Cs([i \in 1..a |-> N(i)]))>>]
+LoopKinds == {"REPT", "IRP", "IRPN", "IRPC", "WHILE"}
+
 \* EXITM inside IF inside a macro / loop; the statements after it must not appear, the IF stack must be cut
 ExitProg(kind, n, at) ==
   LET guard == <<L(<<>>, "IF", <<"C1", ">", ToString(at)>>), DW(<<"C1">>), L(<<>>, "EXITM", <<>>), DW(<<"99">>), L(<<>>, "ENDIF", <<>>)>>
